@@ -779,10 +779,27 @@ async fn out_scenario(a: &ShardArgs, idx: u64) {
         .any(|f| f.len() >= 2 && f[1] == ra::F_RESPONSE && f[0] & 0x0F == pseq);
     let mut waited = 0u64;
     let bound = cfg.confirm_timeout_ms * 4 + cfg.unsol_retry_delay_ms + 2000;
+    // a peer that keeps talking without ever confirming must not keep the outstation in a confirm wait: while waiting for
+    // the answer, the same READ is repeated or link status is requested more often than the confirm time-out expires
+    let chatter = r.below(3);
+    if chatter > 0 && !got {
+        out::count("probe_with_chatter", 1);
+    }
     while !got && waited < bound {
-        let step = cfg.confirm_timeout_ms;
+        let step = if chatter > 0 { (cfg.confirm_timeout_ms / 2).max(1) } else { cfg.confirm_timeout_ms };
         sim.advance(step).await;
         waited += step;
+        match chatter {
+            1 => {
+                sim.send(&rd);
+                settle().await;
+            }
+            2 => {
+                sim.pipe.push(&probe);
+                settle().await;
+            }
+            _ => {}
+        }
         got = sim
             .collect()
             .iter()
